@@ -237,11 +237,20 @@ def run_case(case):
     elif case["leg"] == "factory":
         fi = c01.factory_info(case["factory"], case["invert"], case["cond"])
         tag = f"factory:{case['factory']}|invert={int(case['invert'])}|cond={case['cond']}"
+        # keys whose BASE draw has a coordinate beyond 2.3 resp. 4.5 (outside the spline intervals the factories use, in a flat
+        # LeakyTanh tail): found by enumerating keys, so the joint path is exercised on the tails of the transformers as well
+        tail_keys = []
+        for thr in (2.3, 4.0):
+            for k_ in range(4000):
+                kk = jr.PRNGKey(k_)
+                if float(jnp.max(jnp.abs(D.StandardNormal((2,)).sample(kk)))) > thr:
+                    tail_keys.append(kk)
+                    break
         for level in (0, 1, 2):
             dist = c01.build_factory(case["factory"], case["invert"], case["cond"], seed, level)
             cond = None if case["cond"] is None else jnp.asarray([0.7, -1.3])
             rt = 1e-3 if (fi.num_fwd or fi.num_inv) else 1e-9
-            tr += judge(dist, fi.fwd, fi.inv, rt, add, tag, keys, [np.asarray([0.4, -0.9]), np.asarray([-2.0, 1.5])], cond, counters)
+            tr += judge(dist, fi.fwd, fi.inv, rt, add, tag, keys + tail_keys, [np.asarray([0.4, -0.9]), np.asarray([-2.0, 1.5]), np.asarray([2.0, -3.1])], cond, counters)
         sample = {"dist": tag}
     else:
         i = case["i"]
